@@ -69,11 +69,14 @@ structure Coder where
   st : X86State
 deriving Repr
 
-/-- `lzma_simple_coder_init` + the per-filter init; `none` = LZMA_OPTIONS_ERROR (misaligned start offset). -/
-def Coder.init (id : FilterId) (enc : Bool) (next : Next) (startOffset : BitVec 32) : Option Coder :=
+/-- `lzma_simple_coder_init` + the per-filter init; `none` = LZMA_OPTIONS_ERROR (misaligned start offset).
+    `allocated` is the size of the temporary buffer: `2 * unfiltered_max` in the reference code; any value ≥ that gives the same
+    stream (only the per-call split differs), so the model driver takes the value the tree under test really uses (Gen/C15.lean). -/
+def Coder.init (id : FilterId) (enc : Bool) (next : Next) (startOffset : BitVec 32) (allocated : Nat := 2 * id.unfilteredMax) :
+    Option Coder :=
   if startOffset.toNat % id.alignment ≠ 0 then none
   else some { id := id, isEncoder := enc, next := next, endWasReached := false, nowPos := startOffset,
-              allocated := 2 * id.unfilteredMax, pos := 0, filtered := 0, size := 0, buffer := [], st := X86State.init }
+              allocated := allocated, pos := 0, filtered := 0, size := 0, buffer := [], st := X86State.init }
 
 /-- `lzma_simple_coder_init` + per-filter init on an already allocated coder of the same filter (handle reuse): `now_pos`, `is_encoder`,
     `end_was_reached`, `pos`, `filtered`, `size` and the x86 state are reset; `allocated` is kept; the stale bytes of `buffer[]` are
